@@ -32,6 +32,8 @@ type c15Case struct {
 	Exclude []string `json:"exclude,omitempty"`
 	// Follow: FollowLinks with a source argument that is a symlink inside the source root
 	Follow bool `json:"follow,omitempty"`
+	// DstLink: the destination root is handed over as a symlink to the directory (/var/run, current -> releases/42)
+	DstLink bool `json:"dstlink,omitempty"`
 }
 
 func shapeOf(t fsmodel.Tree) string {
@@ -50,7 +52,7 @@ func shapeOf(t fsmodel.Tree) string {
 }
 
 func (c c15Case) String() string {
-	s := fmt.Sprintf("src=%s dst=%s Copy(%q -> %q) dircontents=%v always-replace=%v wildcards=%v", shapeOf(c.Src), shapeOf(c.Dst), c.SrcArg, c.DstArg, c.DirC, c.Repl, c.Wild)
+	s := fmt.Sprintf("src=%s dst=%s Copy(%q -> %q) dircontents=%v always-replace=%v wildcards=%v dst-root-is-a-symlink=%v", shapeOf(c.Src), shapeOf(c.Dst), c.SrcArg, c.DstArg, c.DirC, c.Repl, c.Wild, c.DstLink)
 	if len(c.Exclude) > 0 || c.Follow {
 		s += fmt.Sprintf(" exclude=%q follow-links=%v", c.Exclude, c.Follow)
 	}
@@ -267,6 +269,14 @@ func argTouchesSymlink(t fsmodel.Tree, arg string) bool {
 
 func runCopy(c c15Case, srcDir, dstDir string) error {
 	ci := fscopy.CopyInfo{CopyDirContents: c.DirC, AlwaysReplaceExistingDestPaths: c.Repl, AllowWildcards: c.Wild, ExcludePatterns: c.Exclude, FollowLinks: c.Follow}
+	if c.DstLink {
+		lnk := dstDir + ".lnk"
+		os.Remove(lnk)
+		if err := os.Symlink(filepath.Base(dstDir), lnk); err != nil {
+			return err
+		}
+		dstDir = lnk
+	}
 	return boundedCopy(func() error {
 		return fscopy.Copy(context.Background(), srcDir, c.SrcArg, dstDir, c.DstArg, fscopy.WithCopyInfo(ci))
 	})
@@ -551,6 +561,23 @@ func runC15(r *evid.Run) {
 			}
 		}
 	}
+	// the destination root reached through a symlink: a file copied to the root, to a name in it, into a directory in it
+	{
+		T := fsmodel.T0
+		st := fsmodel.Tree{{Path: "f", Kind: fsmodel.File, Perm: 0644, Mtime: T + 1, Data: []byte("S:f")}, {Path: "d", Kind: fsmodel.Dir, Perm: 0755, Mtime: T}, {Path: "d/g", Kind: fsmodel.File, Perm: 0644, Mtime: T + 2, Data: []byte("S:d/g")}}
+		for _, d := range []fsmodel.Tree{nil, {{Path: "keep", Kind: fsmodel.File, Perm: 0600, Mtime: T, Data: []byte("D:keep")}, {Path: "x", Kind: fsmodel.Dir, Perm: 0755, Mtime: T}}} {
+			for _, sa := range []string{"f", "d/g"} {
+				for _, da := range []string{"/", "x", "x/", "new"} {
+					if (da == "x" || da == "x/") && d == nil {
+						continue
+					}
+					for o := 0; o < 4; o++ {
+						cases = append(cases, c15Case{Src: st, Dst: d, SrcArg: sa, DstArg: da, DirC: o&1 != 0, Repl: o&2 != 0, DstLink: true})
+					}
+				}
+			}
+		}
+	}
 	// wildcard sources of three and four components whose first wildcard component is selective: the union of the matches
 	{
 		T := fsmodel.T0
@@ -560,9 +587,11 @@ func runC15(r *evid.Run) {
 		dd := func(p string) fsmodel.Node { return fsmodel.Node{Path: p, Kind: fsmodel.Dir, Perm: 0755, Mtime: T} }
 		mono := fsmodel.Tree{dd("svc-a"), dd("svc-a/config"), f("svc-a/config/a.yaml", 1), f("svc-a/config/n.txt", 2), dd("svc-a/lib"), f("svc-a/lib/util.lock", 3),
 			dd("svc-b"), dd("svc-b/config"), f("svc-b/config/b.yaml", 4), dd("svc-b/config/deep"), f("svc-b/config/deep/c.yaml", 5), dd("other"), dd("other/config"), f("other/config/o.yaml", 6),
-			dd("services"), dd("services/svc-c"), dd("services/svc-c/config"), f("services/svc-c/config/c.yaml", 7), f("top.yaml", 8)}
+			dd("services"), dd("services/svc-c"), dd("services/svc-c/config"), f("services/svc-c/config/c.yaml", 7), f("top.yaml", 8),
+			// names that begin with a dot are names like any other
+			f(".env", 9), dd(".git"), f(".git/HEAD", 10), f("svc-a/config/.secret.yaml", 11), dd("svc-b/.cache"), f("svc-b/.cache/x.lock", 12)}
 		mono.Sort()
-		for _, sa := range []string{"svc-*/config/*.yaml", "svc-*/*/*.lock", "svc-?/config/*", "*/config/*.yaml", "services/svc-*/config/*.yaml", "svc-*/config/deep/*.yaml", "s*/*/*/*.yaml", "svc-*/config"} {
+		for _, sa := range []string{"*", ".*", "svc-a/config/*", "svc-*/config/*.yaml", "svc-*/*/*.lock", "svc-?/config/*", "*/config/*.yaml", "services/svc-*/config/*.yaml", "svc-*/config/deep/*.yaml", "s*/*/*/*.yaml", "svc-*/config"} {
 			for _, d := range []fsmodel.Tree{nil, {dd("out")}} {
 				for _, da := range []string{"/", "out", "out/", "new/"} {
 					for o := 0; o < 4; o++ {
